@@ -40,7 +40,9 @@ func checkC07(r *Run) {
 	checkMaskDiscipline(r, p)
 	checkPeerBroadcast(r, p)
 	checkFreeWriterAck(r, p)
-	checkErrDrop(r, p, "C07.ERR", func(fn *FuncNode) bool { return fn.InPkgs("synnax/pkg/distribution/framer") && !fn.InPkgs("synnax/pkg/distribution/framer/codec", "synnax/pkg/distribution/framer/pb") }, 150)
+	checkErrDrop(r, p, "C07.ERR", func(fn *FuncNode) bool {
+		return fn.InPkgs("synnax/pkg/distribution/framer") && !fn.InPkgs("synnax/pkg/distribution/framer/codec", "synnax/pkg/distribution/framer/pb")
+	}, 150)
 }
 
 // checkFreeWriterAck decides C07.R6: the free (virtual-channel) writer is one of the
@@ -308,6 +310,31 @@ func checkExistenceGates(r *Run, p *Prog) {
 	}
 }
 
+// denotesField reports whether e denotes the struct field fld of the receiver: the
+// selector itself, or a local pointer taken from it once (m := &s.f; m.x, *m).
+func denotesField(fn *FuncNode, e ast.Expr, fld *types.Var) bool {
+	if fld == nil {
+		return false
+	}
+	e = ast.Unparen(e)
+	if st, ok := e.(*ast.StarExpr); ok {
+		e = ast.Unparen(st.X)
+	}
+	if sel, ok := e.(*ast.SelectorExpr); ok {
+		return fieldVar(fn, sel) == fld
+	}
+	if o := objOf(fn, e); o != nil {
+		if rhs, _, ok := varDefinedBy(fn, o); ok {
+			if u, ok := ast.Unparen(rhs).(*ast.UnaryExpr); ok && u.Op == token.AND {
+				if sel, ok := ast.Unparen(u.X).(*ast.SelectorExpr); ok {
+					return fieldVar(fn, sel) == fld
+				}
+			}
+		}
+	}
+	return false
+}
+
 func checkSynchronizers(r *Run, p *Prog) {
 	for _, pk := range []string{dwPkg, diPkg} {
 		syncF := p.Func(pk, "synchronizer", "sync")
@@ -336,8 +363,7 @@ func checkSynchronizers(r *Run, p *Prog) {
 				return true
 			}
 			nRet++
-			sel, isSel := ast.Unparen(ret.Results[0]).(*ast.SelectorExpr)
-			if !isSel || fieldVar(syncF, sel) != cycle {
+			if !denotesField(syncF, ret.Results[0], cycle) {
 				okMerged = false
 				detail = "returns " + types.ExprString(ret.Results[0])
 			}
@@ -349,7 +375,7 @@ func checkSynchronizers(r *Run, p *Prog) {
 		inspectNoLit(syncF.Body, func(n ast.Node) bool {
 			if as, ok := n.(*ast.AssignStmt); ok && len(as.Lhs) == 1 && len(as.Rhs) == 1 {
 				if s, isSel := ast.Unparen(as.Lhs[0]).(*ast.SelectorExpr); isSel && (s.Sel.Name == "Authorized" || s.Sel.Name == "Ack") {
-					if inner, ok := ast.Unparen(s.X).(*ast.SelectorExpr); ok && fieldVar(syncF, inner) == cycle {
+					if denotesField(syncF, s.X, cycle) {
 						if id, ok := ast.Unparen(as.Rhs[0]).(*ast.Ident); ok && id.Name == "false" {
 							okClear = true
 						}
@@ -366,8 +392,7 @@ func checkSynchronizers(r *Run, p *Prog) {
 				if !ok || sel.Sel.Name != "End" {
 					return false
 				}
-				inner, ok := ast.Unparen(sel.X).(*ast.SelectorExpr)
-				return ok && fieldVar(syncF, inner) == cycle
+				return denotesField(syncF, sel.X, cycle)
 			})
 			engine := ""
 			if cf := p.Func("cesium", "streamWriter", "commit"); cf != nil {
@@ -388,8 +413,7 @@ func checkSynchronizers(r *Run, p *Prog) {
 			// the iterator's acknowledgement is merged with the same connective the storage
 			// engine uses across its channel iterators (sibling agreement)
 			dist := ackConnective(syncF, func(sel *ast.SelectorExpr) bool {
-				inner, ok := ast.Unparen(sel.X).(*ast.SelectorExpr)
-				return ok && sel.Sel.Name == "Ack" && fieldVar(syncF, inner) == cycle
+				return sel.Sel.Name == "Ack" && denotesField(syncF, sel.X, cycle)
 			})
 			engine := ""
 			for _, name := range []string{"execWithResponse", "execWithoutResponse"} {
